@@ -331,3 +331,23 @@ package unionstore
 //@   at call(IterReverse#2) assert bounds: arg0 == k && arg1 == lowerBound
 //@   at call(NewUnionIter) assert merged: arg_dirtyIt == bufferIt && arg_snapshotIt == retrieverIt && arg_reverse
 //@   ensures union: result1 == nil ==> typeIs(result0, *UnionIter)
+
+// ---- BatchGet of the plain (radix tree) buffer (C07; the red-black-tree wrapper has the same code but is not part of the built program): every requested key the buffer has an entry for is answered - a buffered
+// DELETION (empty value) included: the union reader relies on it to keep the deleted key away from the snapshot -----------
+// Assumed of the wrappers' own Get (trusted, as for the MemBuffer interface): it answers the entry the buffer holds and
+// answers "not found" exactly when it holds none.
+//@ func (*artDBWithContext) Get
+//@   trusted
+//@   bytes: key
+//@   modifies nothing
+//@   ensures result1 == nil ==> gHas(db, k) && result0.Value == gVal(db, k)
+//@   ensures result1 != nil && tikverr.IsErrNotFound(result1) ==> !gHas(db, k)
+//@ func (*artDBWithContext) BatchGet
+//@   prop C07
+//@   bytes: key
+//@   opaque-callee Len
+//@   loop 1 invariant idx: m != nil && -1 <= rangeindex && rangeindex < len(keys)
+//@   loop 1 invariant got: forall k []byte :: inDom(m, string(k)) ==> inKeys(keys, k) && gHas(db, k) && m[string(k)].Value == gVal(db, k)
+//@   loop 1 invariant done: forall i int :: 0 <= i && i <= rangeindex ==> (gHas(db, keys[i]) ==> inDom(m, string(keys[i])))
+//@   ensures value: result1 == nil ==> forall k []byte :: inDom(result0, string(k)) ==> inKeys(keys, k) && gHas(db, k) && result0[string(k)].Value == gVal(db, k)
+//@   ensures all: result1 == nil && defined(m) ==> forall i int :: 0 <= i && i < len(keys) && gHas(db, keys[i]) ==> inDom(result0, string(keys[i]))
